@@ -19,6 +19,7 @@ type Opts struct {
 	Tier    string
 	Shard   int
 	Variant string
+	Checker string // "Coq.Module:function" evaluated on the cases (engines that serve several properties)
 }
 
 var engines = map[string]func(o *Opts){}
@@ -41,6 +42,7 @@ func main() {
 	fs.StringVar(&o.Tier, "tier", "quick", "tier")
 	fs.IntVar(&o.Shard, "shard", 0, "shard number")
 	fs.StringVar(&o.Variant, "variant", "", "engine specific variant")
+	fs.StringVar(&o.Checker, "checker", "", "Coq module:function used as checker")
 	if err := fs.Parse(os.Args[2:]); err != nil {
 		os.Exit(2)
 	}
